@@ -1845,8 +1845,8 @@ def spec_display_none_decls(ctx, make_exe):
     i_data0 = ctx.field("Declaration", "data")
     from sym import VSlice
     all_outs = []
-    for n in (1, 2):
-        exe = make_exe(loop_bound=6, timeout_ms=10000)
+    for n in (1, 2, 3):
+        exe = make_exe(loop_bound=8, timeout_ms=10000)
         decls = VVec([VOpaque("parser::Declaration", "decl%d" % k) for k in range(n)])
         st = State()
         if n == 2:
@@ -1854,6 +1854,11 @@ def spec_display_none_decls(ctx, make_exe):
             for k in range(n):
                 d = z3.BitVec("decl%d.%d.discr" % (k, i_data0), 64)
                 st.pc.append(z3.Or(*[d == idx0[v] for v in ("Height", "MaxHeight", "Overflow", "OverflowY", "Display")]))
+        if n == 3:
+            # three declarations: the parts of the idiom only (a later non-zero height must not undo an earlier zero one)
+            for k in range(n):
+                d = z3.BitVec("decl%d.%d.discr" % (k, i_data0), 64)
+                st.pc.append(z3.Or(*[d == idx0[v] for v in ("Height", "MaxHeight", "Overflow", "OverflowY")]))
         outs_n = exe.run(f.name, {1: VRef("val", VSlice(decls, VInt(u64(0), 64, False), VInt(u64(n), 64, False)))}, st)
         all_outs.append((exe, n, outs_n))
     exe, n, outs = all_outs[0]
@@ -2122,6 +2127,55 @@ def spec_shallow_empty_sound(ctx, make_exe):
                          "%s with %d children: called empty only if every child is empty (content is never dropped)" % (kind, k))
                     if k == 0:
                         post(exe, s2, ret.e, f.name, "%s without children is empty" % kind)
+    # text and image nodes: empty exactly when nothing but whitespace is left (string contents are a contract:
+    # trim() yields a string whose length is arbitrary but not larger than the original)
+    for kind in ("Text", "Img"):
+        exe = make_exe(loop_bound=4)
+        st = State()
+        raw_len = exe.fresh("usize", "text.len")
+        trimmed_len = exe.fresh("usize", "text.trim.len")
+        st.pc += [z3.ULE(trimmed_len.e, raw_len.e), z3.ULE(raw_len.e, u64(1 << 40))]
+        text = VOpaque("String", "text")
+        info = VAgg("RenderNodeInfo::" + kind, kind, [text] if kind == "Text" else [VOpaque("String", "src"), text])
+        node = _agg(ctx, "RenderNode", info=info)
+
+        def summ2(exe_, st_, f_, bb_, callee, args, dest_ty):
+            c = callee.strip()
+
+            def nm(v):
+                while isinstance(v, VRef):
+                    v = exe_.deref(st_, v)
+                return getattr(v, "name", None)
+            if re.search(r"<String as Deref>::deref$", c):
+                return [(st_, VRef("val", VOpaque("str", "text_str" if nm(args[0]) == "text" else "other_str")))]
+            if re.search(r"core::str::<impl str>::trim$", c):
+                return [(st_, VRef("val", VOpaque("str", "trimmed" if nm(args[0]) in ("text", "text_str") else "other_trimmed")))]
+            if re.search(r"(core::str::<impl str>::len|String::len)$", c):
+                n_ = nm(args[0])
+                if n_ == "trimmed":
+                    return [(st_, trimmed_len)]
+                if n_ in ("text", "text_str"):
+                    return [(st_, raw_len)]
+                return None
+            if re.search(r"(core::str::<impl str>::is_empty|String::is_empty)$", c):
+                n_ = nm(args[0])
+                if n_ == "trimmed":
+                    return [(st_, VBool(trimmed_len.e == 0))]
+                if n_ in ("text", "text_str"):
+                    return [(st_, VBool(raw_len.e == 0))]
+                return None
+            return orig(exe_, st_, f_, bb_, callee, args, dest_ty)
+        summaries.summarize = summ2
+        try:
+            outs = exe.run(f.name, {1: VRef("val", node)}, st)
+        finally:
+            summaries.summarize = orig
+        total += len(outs)
+        for (s2, ret) in outs:
+            if not isinstance(ret, VBool):
+                raise Inconclusive("result of is_shallow_empty not recovered")
+            post(exe, s2, ret.e == (trimmed_len.e == 0), f.name,
+                 "%s: empty exactly when only whitespace is left (a whitespace-only link must not leave a reference)" % kind)
     return {"function": f.name, "paths": total}
 
 # ----------------------------------------------------------------------------
@@ -2373,7 +2427,7 @@ ALL = [
          replay=lambda fd, vals, info: {"harness": "m_descendant_self", "values": [[0]]}),
     Spec("display_none_decls", ["C18"], spec_display_none_decls,
          functions=["css::styles_from_properties"],
-         bounds="two declarations of any kind (all Decl variants and their value enums symbolic); zero-ness of a length an arbitrary boolean",
+         bounds="one declaration of any kind; any two among height / max-height / overflow / overflow-y / display; any three among the first four; all value enums symbolic, zero-ness of a length an arbitrary boolean",
          assumptions=["declarations are opaque values with symbolic enum discriminants; floating point lengths are opaque, `== 0.0` is an arbitrary boolean"],
          replay=lambda fd, vals, info: {"harness": "m_display_none", "values": [[0]]}),
     Spec("ident_case_fold", ["C17"], spec_ident_case_fold,
@@ -2384,7 +2438,7 @@ ALL = [
     Spec("shallow_empty_sound", ["C03", "C13", "C08"], spec_shallow_empty_sound,
          functions=["RenderNode::is_shallow_empty"],
          bounds="every node kind with children, 0-2 children of arbitrary emptiness",
-         assumptions=["the text arms (str::trim().len() == 0) are string code and not checked",
+         assumptions=["text arms: str::trim returns a string of arbitrary length not longer than its argument (string contents are not modelled)",
                       "a recursive call on a child returns that child's (arbitrary) emptiness"],
          replay=lambda fd, vals, info: {"harness": "m_shallow_empty", "values": [[0]]}),
     Spec("value_token_end", ["C17"], spec_value_token_end,
